@@ -189,6 +189,24 @@ CLAIMED = {
              "every run (50 small messages, LINGER 10 s, term(): none arrives). 9 theorems. Partial by nature of the finding.",
         note=COMMON_NOTE + "The timing oracle allows LINGER + 2.5 s; term()'s own 10 s straggler allowance is outside LINGER.",
         design="§8 C15"),
+    "C16": dict(
+        engine="M9 Shutdown (+ M4 wait/notify)",
+        technique="Lean 4 theorems: wait-group accounting invariant by induction over every history of spawns, exits (return / error / "
+                  "cancellation) and polls of the term() waiter, reusing C08's register-first no-lost-wake-up result; decision functions for "
+                  "'who learns of a shutdown and by when' and 'what the API of a closed socket answers' stated outright; registry invariant for "
+                  "names; tie: translator re-extracts 15 structural facts (theorem `source_shape`), stack scenarios running random API histories "
+                  "with close()/term() injected anywhere on real sockets and checking return times, promptness of errors, re-bindability and "
+                  "the runtime's alive-task count",
+        text="Proof over the models: the wait group counts exactly the living actors whatever the order and manner of their exits; the waiter "
+             "in term() is released only at a poll where nothing is alive, and is released (one poll suffices) once everything has stopped; a "
+             "session still handshaking and a connecter still retrying learn of the shutdown within 100 ms / one retry interval even when they "
+             "subscribed to the bus too late (the earlier bus-only shape never learns); once close()/term() has begun every API call returns at "
+             "once with an error (Ok for a repeated close) - the earlier unanswered mailbox hangs; after a socket's loop has ended none of its "
+             "inproc names is registered. 10 theorems. Partial: the interleavings of the actor tasks, timer accuracy and OS port release are "
+             "covered by the sampled lifecycle histories, not by the theorems; term()'s 10 s straggler allowance still exists (the scenarios "
+             "flag any run in which it is needed).",
+        note=COMMON_NOTE + "The runtime's alive-task counter is the observation of 'nothing left running'.",
+        design="§8 C16"),
     "C17": dict(
         engine="M6 Routing + M7 Lifecycle",
         technique="Lean 4 arithmetic theorems for both back-off schedules over all (RECONNECT_IVL, RECONNECT_IVL_MAX, attempt); decision-table "
